@@ -44,6 +44,7 @@ class Explorer:
         self.pc = []
         self.defs = []   # definitional constraints of auxiliary symbols (always true), per path
         self.side = []   # side conditions (e.g. divisor != 0) met on the path
+        self.facts = []  # contract facts of stubs (always true); asserted in end-of-path queries only
         self.nq = 0
         self.tq = 0.0
         self.npaths = 0
@@ -55,6 +56,7 @@ class Explorer:
         self.notes = {}
         self.split_atoms = split_atoms
         self.feas_timeout_ms = feas_timeout_ms or timeout_ms
+        self.halt = False     # set by the harness once a replay-confirmed counterexample exists: stop exploring
         self.part = None      # (index, nparts, depth): explore only paths whose first `depth` decisions hash to index
         self.known = {}       # atom id -> decision on the current path (split_atoms mode)
         self.lazy = {}        # term id of an auxiliary symbol (uf_sqrt application) -> its defining constraint
@@ -75,6 +77,11 @@ class Explorer:
     def add_def(self, c):
         self.defs.append(c)
         self.solver.add(c)
+
+    def add_fact(self, c):
+        """a fact guaranteed by a stub's contract: kept out of the branch-feasibility solver (sound: more paths, never
+        fewer) and asserted in every end-of-path query"""
+        self.facts.append(c)
 
     def add_lazy_def(self, term, c):
         """definition asserted only once `term` occurs in a formula sent to the solver"""
@@ -196,6 +203,8 @@ class Explorer:
         """yield (explorer-state, outcome) per feasible path; outcome = ('ok', value) | ('exc', exception)"""
         stack = [[]]
         while stack:
+            if self.halt:
+                return
             if self.npaths >= self.max_paths or (
                 self.max_seconds and time.time() - self.t0 > self.max_seconds
             ):
@@ -205,6 +214,7 @@ class Explorer:
             self.pc = list(base)
             self.defs = []
             self.side = []
+            self.facts = []
             self.lazy = {}
             self.active = set()
             self.known = {}
@@ -235,14 +245,15 @@ class Explorer:
                 Explorer.cur = None
 
     # -- queries at the end of a path (pc, defs and side conditions are already asserted)
-    def query(self, *extra, timeout_ms=None):
+    def query(self, *extra, timeout_ms=None, with_side=True):
         self.solver.push()
         try:
             if timeout_ms:
                 self.solver.set("timeout", timeout_ms)
             before = set(self.active)
-            self._activate(*extra, *self.side)
-            for e in self.side:
+            sides = (self.side if with_side else []) + self.facts
+            self._activate(*extra, *sides)
+            for e in sides:
                 self.solver.add(e)
             for e in extra:
                 self.solver.add(e)
@@ -424,6 +435,28 @@ def _dmul(d1, d2):
     return d1 * d2
 
 
+def sqof(x):
+    """the square of an SV as a plain SV (uses the recorded square when there is one)"""
+    if x.sq is not None:
+        return SV(x.sq.v, x.sq.nan, d=x.sq.d, nn=True, dp=x.sq.dp)
+    return SV(x.v * x.v, x.nan, d=None if x.d is None else x.d * x.d, nn=True, dp=True)
+
+
+def _sq_mul(a, b):
+    if a.sq is None and b.sq is None:
+        return None
+    x, y = sqof(a), sqof(b)
+    return SV(x.v * y.v, _or(x.nan, y.nan), d=_dmul(x.d, y.d), nn=True, dp=x.dp and y.dp)
+
+
+def _sq_div(a, b):
+    if a.sq is None and b.sq is None:
+        return None
+    x, y = sqof(a), sqof(b)
+    num = x.v if y.d is None else x.v * y.d
+    return SV(num, _or(x.nan, y.nan), d=_dmul(x.d, y.v), nn=True, dp=x.dp and y.dp)
+
+
 class SV:
     """real number with a NaN flag, kept as a fraction v/d of polynomial z3 terms (d None = 1) so that
     equalities become inverse-free polynomial identities (DESIGN §2.2).  `sq` (optional SV) records that
@@ -483,8 +516,9 @@ class SV:
             return NotImplemented
         if self.sq is not None and o2.sq is not None and (o2 is self or (z3.eq(o2.v, self.v) and _deq(o2.d, self.d))):
             return SV(self.sq.v, _or(self.nan, o2.nan), d=self.sq.d, nn=True, dp=self.sq.dp)
-        return SV(self.v * o2.v, _or(self.nan, o2.nan), d=_dmul(self.d, o2.d), nn=self.nn and o2.nn,
-                  dp=self.dp and o2.dp)
+        same = o2 is self or (z3.eq(o2.v, self.v) and _deq(o2.d, self.d))
+        return SV(self.v * o2.v, _or(self.nan, o2.nan), d=_dmul(self.d, o2.d), nn=(self.nn and o2.nn) or same,
+                  dp=self.dp and o2.dp, sq=_sq_mul(self, o2))
 
     __rmul__ = __mul__
 
@@ -504,7 +538,8 @@ class SV:
             return SV(num * z3.Q(rc.numerator, rc.denominator), _or(self.nan, o.nan), nn=self.nn and rc > 0 and o.dp
                       and self.d is None)
         # a/(b.v/b.d) = a.v*b.d / (a.d*b.v): positive denominator iff a.d > 0 and b.v > 0
-        return SV(num, _or(self.nan, o.nan), d=den, nn=self.nn and o.nn and o.dp, dp=self.dp and o.nn and o.dp)
+        return SV(num, _or(self.nan, o.nan), d=den, nn=self.nn and o.nn and o.dp, dp=self.dp and o.nn and o.dp,
+                  sq=_sq_div(self, o))
 
     def __rtruediv__(self, o):
         if isinstance(o, np.ndarray):
@@ -532,18 +567,18 @@ class SV:
         return r
 
     def __neg__(self):
-        return SV(-self.v, self.nan, d=self.d, dp=self.dp)
+        return SV(-self.v, self.nan, d=self.d, dp=self.dp, sq=self.sq)
 
     def __pos__(self):
         return self
 
     def __abs__(self):
-        if self.sq is not None or self.nn:
+        if self.nn:
             return self
         if self.dp:
-            return SV(z3.If(self.v >= 0, self.v, -self.v), self.nan, d=self.d, nn=True, dp=True)
+            return SV(z3.If(self.v >= 0, self.v, -self.v), self.nan, d=self.d, nn=True, dp=True, sq=self.sq)
         z = self.z
-        return SV(z3.If(z >= 0, z, -z), self.nan, nn=True)
+        return SV(z3.If(z >= 0, z, -z), self.nan, nn=True, sq=self.sq)
 
     # ---- comparisons (IEEE: false with NaN)
     def _cmp(self, o, f, eq=False):
@@ -552,8 +587,8 @@ class SV:
         o = lift(o)
         if isinstance(o, SC):
             return NotImplemented
-        if self.sq is not None and o.sq is not None:
-            a, b = self.sq, o.sq   # both non-negative: order of roots = order of squares
+        if self.nn and o.nn and (self.sq is not None or o.sq is not None):
+            a, b = sqof(self), sqof(o)   # both non-negative: order (and equality) of values = that of their squares
         else:
             a, b = self, o
         if (eq or (a.dp and b.dp)) and not _deq(a.d, b.d):
@@ -621,9 +656,11 @@ class SV:
                 if rn * rn == fr.numerator and rd * rd == fr.denominator:
                     return SV(z3.Q(rn, rd), self.nan, nn=True)
         f = z3.Function("uf_sqrt", z3.RealSort(), z3.RealSort())
+        # canonical (simplified) argument: later z3.simplify calls on conditions must not change the application,
+        # otherwise its lazily asserted definition would not be found
+        z = sz
         s = f(z)
-        e.add_lazy_def(s, z3.And(s >= 0, s * s == z, z >= 0) if self.d is None
-                       else z3.And(s >= 0, s * s * self.d == self.v, z >= 0))
+        e.add_lazy_def(s, z3.And(s >= 0, s * s == z, z >= 0))
         return SV(s, self.nan, sq=SV(self.v, self.nan, d=self.d, nn=True, dp=self.dp), nn=True)
 
     def _uf(self, name):
@@ -912,7 +949,15 @@ def differs(a, b):
         return z3.Or(differs(a.real, b.real), differs(a.imag, b.imag))
     ad = a.d if a.d is not None else z3.RealVal(1)
     bd = b.d if b.d is not None else z3.RealVal(1)
-    return _or(a.nan, b.nan, a.v * bd != b.v * ad)
+    diff = a.v * bd - b.v * ad
+    try:
+        # z3's rewriter in sum-of-monomials mode settles polynomial identities by normalisation
+        nf = z3.simplify(diff, som=True, som_blowup=10 ** 7)
+        if z3.is_rational_value(nf) and nf.numerator_as_long() == 0:
+            return _or(a.nan, b.nan)
+        return _or(a.nan, b.nan, nf != 0)
+    except z3.Z3Exception:
+        return _or(a.nan, b.nan, diff != 0)
 
 
 def far(a, b, tol):
